@@ -39,7 +39,7 @@ CovInc(c, e, S2) ==
                               /\ \E q \in S2.shutOrder : \E d \in DepsOf(S2.cfg, q) : d.k = L2.p)
                  [] k = "observeEnd" -> inc(k, L2.ev = "ObserveEnd")
                  [] k = "runReturn" -> inc(k, L2.ev = "RunReturn")
-                 [] k = "runReturnTrig" -> inc(k, L2.ev = "RunReturn" /\ (S2.trig # {} \/ S2.trigAny))
+                 [] k = "runReturnTrig" -> inc(k, L2.ev = "RunReturn" /\ (S2.trig # {} \/ S2.trigAny \/ S2.pend # {}))
                  [] k = "apiEnd" -> inc(k, L2.ev = "ApiEnd")
                  [] k = "stateEv" -> inc(k, L2.ev = "State")
                  [] k = "doneEv" -> inc(k, L2.ev = "Done")
